@@ -43,6 +43,12 @@ pub fn job_c03(out_dir: &str, tier: &str, seed: u64) {
             inputs.push(format!("<table><template><{t}><{x}>a</{x}><b></template></table>").into_bytes());
         }
     }
+    // transition coverage from the specification (spec/TokCover.tla), HTML namespace only (the claimed domain for soup)
+    let cover = gen::cover_inputs(quick, true);
+    let stride = if quick { 2 } else { 1 };
+    for (i, (input, _, _)) in cover.iter().enumerate() { if i % stride == 0 { inputs.push(input.clone()); } }
+    // every state of the strict-mode ambiguity guard (spec/GuardCover.tla) x every pair of tags x probes
+    inputs.extend(gen::guard_cover_inputs(quick));
     inputs.retain(|i| usable(i) && !i.is_empty());
     let mut n = 0usize;
     for (ii, input) in inputs.iter().enumerate() {
@@ -52,18 +58,21 @@ pub fn job_c03(out_dir: &str, tier: &str, seed: u64) {
         let mut seen = std::collections::HashSet::new();
         let bytewise: Vec<usize> = (1..input.len()).collect();
         let mut rc: Vec<usize> = (0..2).map(|_| rng.below(input.len() + 1)).collect(); rc.sort_unstable();
-        let schedules: Vec<(&str, Vec<usize>)> = vec![("single", vec![]), ("bytewise", bytewise), ("random", rc)];
+        let mut schedules: Vec<(String, Vec<usize>)> = vec![("single".into(), vec![]), ("bytewise".into(), bytewise), ("random".into(), rc)];
+        // every single cut of a short input (a token completed before the boundary, consumed bytes before it)
+        if input.len() <= 64 && ii % 2 == 0 { for c in 1..input.len() { schedules.push((format!("cut{c}"), vec![c])); } }
         // capture sets: all, and each single kind (rotating to bound the volume)
         let flagsets: Vec<u8> = if ii % 3 == 0 { vec![31, 1, 2, 4, 8, 16] } else { vec![31, [1u8, 2, 4, 8, 12, 16, 5][ii % 7]] };
         for &flags in &flagsets {
             for (sname, cuts) in &schedules {
                 if flags != 31 && *sname == "bytewise" && ii % 2 == 0 { continue; }
+                if flags != 31 && sname.starts_with("cut") { continue; }
                 for strict in [true, false] {
                     let (toks, res) = tokcap::capture(input, cuts, strict, flags);
                     let key = format!("{flags}|{strict}|{res}|{}", Value::Array(toks.clone()));
                     sh.evaluations += 1;
                     // identical observations are judged once; the strict/non-strict pair is kept for StrictSame
-                    if !seen.insert(key) && *sname != "single" { continue; }
+                    if !seen.insert(key) && sname != "single" { continue; }
                     obs.push(json!({"variant": format!("{sname}/flags={flags}/strict={strict}"), "strict": strict, "flags": flags, "cuts": cuts, "res": res, "toks": toks}));
                 }
             }
